@@ -14,10 +14,11 @@ const (
 	ChunkMedium         // 1..1500
 	ChunkRequest        // around the size the harness is about to request (hint-1, hint, hint+1, hint/2)
 	ChunkMixed          // any of the above, per read
+	ChunkExact          // exactly the size the harness is about to request (lockstep peer)
 	chunkModes
 )
 
-var chunkNames = []string{"fill", "1B", "small", "medium", "request±1", "mixed"}
+var chunkNames = []string{"fill", "1B", "small", "medium", "request±1", "mixed", "exact"}
 
 // Injectable terminal errors.
 type PtrError struct{ Msg string }
@@ -201,7 +202,7 @@ func (s *Source) Read(p []byte) (int, error) {
 		// within one call the peer's small packets coalesce
 		mode = ChunkFill
 	} else if mode == ChunkMixed {
-		mode = s.st.Choose(chunkModes - 1)
+		mode = s.st.Choose(chunkModes - 2)
 	}
 	n := len(p)
 	switch mode {
@@ -211,6 +212,11 @@ func (s *Source) Read(p []byte) (int, error) {
 		n = 1 + s.st.Choose(16)
 	case ChunkMedium:
 		n = 1 + s.st.Choose(1500)
+	case ChunkExact:
+		n = s.Hint
+		if n < 1 {
+			n = 1
+		}
 	case ChunkRequest:
 		h := s.Hint
 		switch s.st.Choose(5) {
